@@ -227,6 +227,9 @@ fn run_t<T: SampleX>(w: Which, c0: &HistCase) -> Outcome {
             let mut measured_after_change = false;
             let mut pending = false;
             for s in &tr.steps {
+                if s.alloc_getters != 0 {
+                    o.fail(format!("alloc:getters:{}", kind.name()), format!("op {}: the getters performed {} allocator calls", s.op, s.alloc_getters));
+                }
                 let is_pib_call = matches!(s.res, StepRes::Call(_)) && s.path == Path::Pib && !s.partial;
                 let is_call = matches!(s.res, StepRes::Call(_));
                 if is_pib_call {
